@@ -328,10 +328,10 @@ def gen_layout(rng, tier):
             for x in range(w):
                 if rng.random() < dens * .6:
                     cells[r][x].append("#")
+                if rng.random() < dens:     # one, two or three walls / fences in different directions on one cell
+                    cells[r][x] += rng.sample("[]^_", rng.choice([1, 1, 1, 2, 2, 3]))
                 if rng.random() < dens:
-                    cells[r][x].append(rng.choice("[]^_"))
-                if rng.random() < dens:
-                    cells[r][x].append(rng.choice("{}~u"))
+                    cells[r][x] += rng.sample("{}~u", rng.choice([1, 1, 1, 2]))
         for _ in range(rng.randint(0, 3)):
             cells[rng.randrange(h)][rng.randrange(w)].append(rng.choice(["G0", "G1", "G", "G0", "G1"]))
         free = [(r, x) for r in range(h) for x in range(w) if "#" not in cells[r][x]]
@@ -340,6 +340,15 @@ def gen_layout(rng, tier):
         a0, a1 = rng.sample(free, 2)
         cells[a0[0]][a0[1]].append("A0")
         cells[a1[0]][a1[1]].append("A1")
+        if rng.random() < .5:
+            # corner room: a cell occupied by / adjacent to an agent carries 2-3 walls in different directions
+            ar, ax = rng.choice([a0, a1])
+            cand = [(ar, ax)] * 2 + [(ar + dr, ax + dx) for dr, dx in ((0, 1), (0, -1), (1, 0), (-1, 0))
+                                     if 0 <= ar + dr < h and 0 <= ax + dx < w]
+            cr, cx = rng.choice(cand)
+            have = [sy for sy in cells[cr][cx] if sy in "[]^_"]
+            extra = [sy for sy in rng.sample("[]^_", rng.choice([2, 2, 3])) if sy not in have]
+            cells[cr][cx] += extra
         for r in range(h):
             for x in range(w):
                 rng.shuffle(cells[r][x])
@@ -469,6 +478,8 @@ def features(f, s, ja):
             out["into_obstacle"] = 1
         if c + t in set(f["walls"]):
             out["into_wall"] = 1
+            if sum(1 for wl in f["walls"] if wl[:2] == c) > 1:
+                out["into_wall_of_multi_wall_cell"] = 1
         if c + t in set(f["fences"]):
             out["through_fence"] = 1
     goals = {(g[0], g[1]) for g in f["goals"]}
@@ -617,7 +628,7 @@ def run(ctx0):
                 "scale, div, normalize, marginalize, marginal of a product, the grid game's fence and [1,0]-constraint patterns) over 1-5 row tables "
                 "on flat and nested variables, related as shared / disjoint / partially overlapping, with duplicate rows, zero weights and "
                 "occasionally heterogeneous rows; grid games: 1..4 x 1..4 grids (optionally inside an obstacle border), two agents in distinct free cells, "
-                "random obstacles, one-directional walls, fences (success prob 0,1/4,1/2,1), 0-3 goals among G0/G1/G, collision_prob None or 1/2; "
+                "random obstacles, one-directional walls (1-3 per cell in different directions, corner rooms on / next to an agent's cell), fences (1-2 per cell, success prob 0,1/4,1/2,1), 0-3 goals among G0/G1/G, collision_prob None or 1/2; "
                 "all reachable non-terminal states (cap 40 quick / 60 thorough) + the terminal state x 25 joint actions. distinct = structural hash of (tables, expression) "
                 "resp. (layout, parameters, state, joint action) for non-terminal non-goal states (non-trivial = a real move is computed)",
         "samples": sample,
